@@ -1343,8 +1343,16 @@ struct TemplateCore {
             // Sort
             if (tag.Options > SizeT8{1}) {
                 if (tag.GroupLength == 0) {
-                    grouped_set = *loop_set;
-                    loop_set    = &grouped_set;
+                    // The copy that gets sorted is one of the set, not of a pointer to it.
+                    if (loop_set->IsArray()) {
+                        grouped_set = *(loop_set->GetArray());
+                    } else if (loop_set->IsObject()) {
+                        grouped_set = *(loop_set->GetObject());
+                    } else {
+                        grouped_set = *loop_set;
+                    }
+
+                    loop_set = &grouped_set;
                 }
 
                 grouped_set.Sort((tag.Options & LoopTagOptions::SortAscend) == LoopTagOptions::SortAscend);
